@@ -11,7 +11,8 @@ CLAIMED = {
    "Postconditions of Option.Save for slice and map kinds (append in order, inclusive int range expansion with termination, key/value split at the first '=') proved for all inputs; loop invariants and variants discharged by SMT.",
    "Assumes library specs for strings.SplitN/Contains, strconv oracles; contracts for multi-element Save calls cover len(a)==1 (what the parser issues).",
    "DESIGN.md section 4 C02"),
+ "C03": (TECH, "step clauses of the argument walk", "wip", "DESIGN.md section 4 C03"),
 }
 
 _todo = "contracts for the functions this property depends on are not yet discharged in this revision; no claim is made"
-NOT_APPLICABLE = {p: _todo for p in ["C03","C04","C05","C06","C07","C08","C09","C10","C11","C12","C13","C14","C15","C16","C17","C18","C19","C20"]}
+NOT_APPLICABLE = {p: _todo for p in ["C04","C05","C06","C07","C08","C09","C10","C11","C12","C13","C14","C15","C16","C17","C18","C19","C20"]}
